@@ -198,8 +198,10 @@ CHECKS = [
               'order returns the same value; the weight moments are the real integrals (Mathlib); the two-piece cross rule is '
               'exact on polynomials with its singular corner at (b1,a2). Tie: the real class with patched rule constructors '
               'run on Fractions (sqrt(h) handled by an exact-root number class), all streams compared with the model.',
-         note='identification of the rule-independent value with the improper double integral (Duffy substitution) stays in the '
-              'trusted base; twelve digits in binary64 and the corner case against a graded reference are search-only'),
+         note='H^{1/2}: for polynomial integrands within the exactness range the routine is PROVED equal to the double integral '
+              'int_a^b int_a^b ((f x - f y)/(x - y))^2 dy dx (Props/C14Integral.lean, Mathlib interval integrals); H^{1/4}: '
+              'identification of the rule-independent value with the improper double integral (Duffy substitution, non-polynomial '
+              'integrand) stays in the trusted base; twelve digits in binary64 and the corner case against a graded reference are search-only'),
     dict(id='C16', design_ref='DESIGN.md section 6 / C16', category='proof',
          technique='Lean 4 invariant proof over all refinement sequences + boundary-targeting theorem + state-dump correspondence of the real InitialMesh',
          text='Proof: the quadtree invariant (half-open tiling of the domain by dyadic squares, 2:1 balance across edges, unique '
@@ -214,9 +216,10 @@ CHECKS = [
          technique='Lean 4 theorems (shortcut = direct sum, patch specifications, weighted-L2 scaling, pool = serial) + token-level exact execution of the real estimator',
          text='Partial. Proved: on every mesh satisfying the invariant the neighbour-symmetry shortcut with its accumulation '
               'loop equals the direct per-element sum (no assertion fires), for arbitrary patch functionals; the time patch '
-              'is union in time x intersection in space on one piece; the space patch is the common time interval x the union of '
-              'the two elements EXCEPT for a seam pair on the same parametrisation piece, for which the model (and the code) '
-              'integrate the complementary arc -- Lean negation witness and general statement, reproduced on the real code and '
+              'is union in time x intersection in space on one piece; full specification of the space patch for EVERY neighbouring pair '
+              '(space_patch_spec_full, gen_space_patch_spec_full): common time interval x the union of '
+              'the two elements, EXCEPT for a seam pair on the same parametrisation piece, for which the model (and the code) '
+              'integrate over [left.x0, right.x1], right.x1 <= left.x0, the complementary arc -- kernel-evaluated witness that the case occurs, reproduced on the real code and '
               'recorded as a known finding; weighted-L2 scaling; pool path = serial path for every worker count given an '
               'order-preserving map. Tie: real sobolev_space / sobolev_time / estimate_* with token seminorms on real meshes. '
               'Accuracy for smooth non-polynomial residuals is measured by the search.',
@@ -253,7 +256,8 @@ CHECKS = [
               'the value of the unique coarse ancestor (parent-table invariant preserved by every mesh operation). Tie: real '
               'estimators with the module np replaced by an exact stand-in, synthetic rational leaves, compared with the model '
               'and with the geometric definition; search against really bisected meshes with single-pair evaluations.',
-         note='completeness of the exact solver (succeeds for every regular matrix) is not proved (it is self-checking); float solve accuracy is outside the model'),
+         note='the exact solver of the model is self-checking and proved complete (pivoting elimination: some y with A y = b for every square '
+              'matrix with non-zero determinant, none only for singular matrices; Props/C20.lean solve_complete, Props/C20Solve.lean); float solve accuracy is outside the model'),
 ]
 for p in _PENDING:
     if p not in [c['id'] for c in CHECKS]:
